@@ -220,8 +220,11 @@ def fit_case(ctx, rng, idx):
     K = rng.randint(1, 3)
     weighted = rng.random() < 0.5
     edges = set()
+    pool = list(range(N))
+    if rng.random() < 0.35:  # a node (not necessarily the last one) that takes part in no hyperedge
+        pool.remove(rng.randrange(N))
     for _ in range(rng.randint(2, 12)):
-        edges.add(tuple(sorted(rng.sample(range(N), rng.choice([2, 2, 3, 3, 4, 5][: max(1, N - 1)])))))
+        edges.add(tuple(sorted(rng.sample(pool, min(len(pool), rng.choice([2, 2, 3, 3, 4, 5][: max(1, N - 1)]))))))
     edges = sorted(edges)
     wts = [rng.randint(1, 4) if weighted else 1 for _ in edges]
     h = hgx.Hypergraph(edges, weighted=weighted, weights=wts if weighted else None)
@@ -240,7 +243,12 @@ def fit_case(ctx, rng, idx):
     if mode in ("w-supplied", "both-supplied"):
         _, w_in = gen_uw(rng, N, K, diag=assortative, positive=True)
     T = 6 if ctx.tier == "quick" else 10
+    fit_kw = {}
+    if rng.random() < 0.3:  # early stopping on a tolerance (checked every `check_convergence_every` iterations)
+        fit_kw = {"tolerance": rng.choice([0.3, 0.05, 1e-2]), "check_convergence_every": rng.choice([1, 1, 2, 3])}
+        T = 12 if ctx.tier == "quick" else 20
     if forced:
+        fit_kw = {}
         N, K, edges, assortative, w_prior, u_prior, mode, seed, T = (forced[k] for k in ("N", "K", "edges", "assortative", "w_prior", "u_prior", "mode", "seed", "T"))
         wts, weighted, dmax = [1] * len(edges), False, max(len(e) for e in edges)
         h = hgx.Hypergraph(edges)
@@ -252,7 +260,7 @@ def fit_case(ctx, rng, idx):
 
     def wit(extra=None):
         return {"N": N, "K": K, "edges": edges, "weights": wts, "assortative": assortative, "w_prior": w_prior, "u_prior": u_prior,
-                "mode": mode, "max_hye_size": D_given, "seed": seed, "u": None if u_in is None else u_in.tolist(),
+                "mode": mode, "max_hye_size": D_given, "seed": seed, "fit_kwargs": fit_kw, "u": None if u_in is None else u_in.tolist(),
                 "w": None if w_in is None else w_in.tolist(), "extra": repr(extra)[:900]}
 
     # ---- trace monitor: wrap the two update methods of the real class ---------------------------------
@@ -302,7 +310,7 @@ def fit_case(ctx, rng, idx):
                 ctx.check("C15:fit-iterate", False, f"C15:fit:constructor-raised:{type(m.e).__name__}", lambda: wit(m))
                 return
             with np.errstate(all="ignore"):
-                r = call(m.fit, h, n_iter=n_iter)
+                r = call(m.fit, h, n_iter=n_iter, **fit_kw)
             if isinstance(r, _Raised):
                 ctx.check("C15:fit-iterate", False, f"C15:fit:raised:{type(r.e).__name__}", lambda: wit((n_iter, r)))
                 return
@@ -330,7 +338,7 @@ def fit_case(ctx, rng, idx):
     ctx.event("update-hook:w", trace["w"])
     ctx.event("update-hook:u", trace["u"])
     expected_hooks = sum(range(1, T + 1))
-    if mode in ("u-supplied", "both-inferred") and len(seq) == T:
+    if mode in ("u-supplied", "both-inferred") and len(seq) == T and not fit_kw:
         ctx.check("C15:fit-iterate", trace["w"] == expected_hooks, "C15:probe:w-update-hook-count", lambda: wit(trace))
     ctx.check("C15:fit-iterate", trace["bad"] is None,
               "C15:fit:" + (str(trace["bad"]) if str(trace["bad"]).startswith("non-finite-parameters:") else "trace:" + str(trace["bad"])), lambda: wit(trace))
